@@ -163,7 +163,11 @@ func genMsg(r *core.RNG, machine string) PMsg {
 		}
 	case c < 17:
 		m.Kind = "unknown"
-		m.Args = []string{[]string{"frobnicate", "extension-foo", "ok", "fail", "wrap-file-key"}[r.Intn(5)]}
+		// (also names that only resemble a defined command: they are unknown all the same)
+		m.Args = []string{[]string{"frobnicate", "extension-foo", "ok", "fail", "wrap-file-key", "msg-debug", "request-pin", "request", "confirm-x", "request-secret-2", "Msg", "recipient-stanza-v2", "labels2", "file-keys", "errors"}[r.Intn(15)]}
+		if r.Chance(1, 3) {
+			m.Args = append(m.Args, ref.B64([]byte("Yes"))) // what a confirm would carry
+		}
 		m.BodyLen = r.Pick(0, 0, 10, 48)
 	case c < 18:
 		// the other machine's own command: unknown here
